@@ -14,7 +14,7 @@ from . import common, e2, e3, e3_gen
 
 PID = "C01"
 PROPS_FILE = "props/C01.v"
-MODEL_TARGETS = ["model/NoStale.vo"]
+MODEL_TARGETS = ["model/NoStale.vo", "model/Engine.vo"]
 RULE = ("E3 differential oracle: seeded generator of projects (static files, static trees, static patterns, "
         "globs with one step per match, chains / diamonds, multiple and volatile outputs, env vars, optional "
         "steps, resources, script steps that amend inputs / outputs / env, sub-plans with hold/release) and "
@@ -48,7 +48,7 @@ ASSUMPTIONS = [
     "counts as not built when the cleanup pass was skipped, a DRAINED build is compared by return-code class",
 ]
 
-KNOWN_NAMED = [co.SIG_D4, co.SIG_D9, co.SIG_D8, co.SIG_F1, co.SIG_F2, co.SIG_F3, co.SIG_F4]
+KNOWN_NAMED = [co.SIG_D4, co.SIG_D9, co.SIG_D8, co.SIG_F1, co.SIG_F2, co.SIG_F3, co.SIG_F4, co.SIG_F5, co.SIG_F6]
 
 
 def generate(ctx):
